@@ -160,6 +160,14 @@ CHECKS["C18"] = dict(
     design_ref="DESIGN.md section 5, C18",
 )
 
+CHECKS["C17"] = dict(
+    engine=E3,
+    technique="stateless exploration of all thread schedules (iterative preemption bounding with global-state-key pruning) of the real PFCP loop with 2-3 peers, 1-3 concurrent report producers, scheduler-fired transaction timers and a Stop thread; oracle per schedule: no panic, no deadlock, every notification/timeout handled exactly once, and after Stop no thread left and no timer armed. Complemented (not decided) by a free-running go -race pass of the same kind of scenario on the unrewritten code",
+    text="Model checking of the implementation under a controlled scheduler: Stop, producers, timer callbacks and peers are threads whose every interleaving within the preemption bound is executed on the mechanically rewritten real code. The two shutdown panics (send on a channel closed by the exiting loop) are reproduced on every run and recorded as known findings; any other panic, deadlock, duplicate or lost notification, surviving goroutine or armed timer fails the check. Data races proper cannot be seen by a cooperative scheduler (its hand-offs are happens-before edges); a separate free-running race-detector pass reports them under evidence key race_pass and is sampling, i.e. a complement that decides nothing.",
+    note=E3_NOTE + " The property's own quantifier text speaks of randomised stress; the deciding step here is the exhaustive schedule enumeration, the randomised -race run is only the complement for unsynchronised accesses.",
+    design_ref="DESIGN.md section 5, C17",
+)
+
 NOT_YET = "check not built yet (work in progress in this round; design in DESIGN.md section 5)"
 
 def main():
